@@ -236,7 +236,8 @@ public:
 
     //--------------------------------------------------------------------
     //compare vector
-    std::vector<bool> operator>(const base_array<T>& rhs) const noexcept {
+    std::vector<bool> operator>(const base_array<T>& rhs) const {
+        DSPLIB_ASSERT(this->size() == rhs.size(), "arrays sizes must be equal");
         std::vector<bool> res(_vec.size());
         for (size_t i = 0; i < _vec.size(); ++i) {
             res[i] = (_vec[i] > rhs._vec[i]);
@@ -244,7 +245,8 @@ public:
         return res;
     }
 
-    std::vector<bool> operator<(const base_array<T>& rhs) const noexcept {
+    std::vector<bool> operator<(const base_array<T>& rhs) const {
+        DSPLIB_ASSERT(this->size() == rhs.size(), "arrays sizes must be equal");
         std::vector<bool> res(_vec.size());
         for (size_t i = 0; i < _vec.size(); ++i) {
             res[i] = (_vec[i] < rhs._vec[i]);
@@ -252,7 +254,8 @@ public:
         return res;
     }
 
-    std::vector<bool> operator==(const base_array<T>& rhs) const noexcept {
+    std::vector<bool> operator==(const base_array<T>& rhs) const {
+        DSPLIB_ASSERT(this->size() == rhs.size(), "arrays sizes must be equal");
         std::vector<bool> res(_vec.size());
         for (size_t i = 0; i < _vec.size(); ++i) {
             res[i] = (_vec[i] == rhs._vec[i]);
@@ -260,7 +263,7 @@ public:
         return res;
     }
 
-    std::vector<bool> operator!=(const base_array<T>& rhs) const noexcept {
+    std::vector<bool> operator!=(const base_array<T>& rhs) const {
         auto r = (*this == rhs);
         r.flip();
         return r;
